@@ -8,7 +8,9 @@
   point is always followed by a `Normal` one; a fetched parallel always has at least one point);
   the fuel is `loopFuel = 4`, and exhausting it is reported as `none` ("stuck"), never papered
   over: every function that contains a loop returns `Option`, the outer `none` meaning "loop bound
-  exceeded" (the driver prints `stuck`, which would be a correspondence disagreement).
+  exceeded" (the driver prints `stuck`, which would be a correspondence disagreement). The same
+  holds for the step budget of `thickPoints`. That neither bound is ever hit is a theorem:
+  `EG.Thick.thickPoints_total` (EG/Lemmas/ThickTotal.lean), for every line and width.
   `Int` arithmetic is unbounded: the `i32` overflow of `thickness_threshold` for long wide lines
   is property C08's topic.
 -/
@@ -230,7 +232,9 @@ def nextFuel : Nat → ThickPointsIt → Option (Option (Pt × ThickPointsIt))
 
 def next (it : ThickPointsIt) : Option (Option (Pt × ThickPointsIt)) := it.nextFuel loopFuel
 
-/-- What a `for` loop sees within `fuel` calls of `next`; `none` = some loop bound was exceeded. -/
+/-- `take(fuel)`: the first `fuel` items a `for` loop sees; `none` = an inner loop bound was
+exceeded. Reaching `fuel = 0` ends the list (that is what `take` does); used where a prefix is
+wanted (EG/Driver/Scale.lean), NOT by `thickPoints`. -/
 def toListFuel : Nat → ThickPointsIt → Option (List Pt)
   | 0, _ => some []
   | fuel + 1, it =>
@@ -242,11 +246,28 @@ def toListFuel : Nat → ThickPointsIt → Option (List Pt)
       | none => none
       | some ps => some (p :: ps)
 
+/-- Everything a `for` loop sees, within a step budget: `none` = some loop bound was exceeded,
+including the step budget `fuel` itself (the list is never silently truncated). -/
+def drainFuel : Nat → ThickPointsIt → Option (List Pt)
+  | 0, _ => none
+  | fuel + 1, it =>
+    match it.next with
+    | none => none
+    | some none => some []
+    | some (some (p, it')) =>
+      match drainFuel fuel it' with
+      | none => none
+      | some ps => some (p :: ps)
+
 end ThickPointsIt
 
-/-- Upper bound on the number of pixels of a stroked line (at most `3 w + 3` parallels of at most
-`majorLength` points each); used as the step budget of `thickPoints`. -/
-def pixelBudget (line : Line) (width : Nat) : Nat := (3 * width + 4) * majorLength line + 1
+/-- Step budget of `thickPoints`: more than the stroke can have pixels. Every parallel raises the
+thickness accumulator by at least 1 and the iterator stops once `accumulator² > threshold`, so
+there are at most `threshold + 1` parallels of at most `majorLength` points each. The bound is
+deliberately crude: it is only a recursion bound, never reached (`EG.Thick.thickPoints_total`,
+EG/Lemmas/ThickTotal.lean: `thickPoints` never returns `none`), and costs nothing at run time. -/
+def pixelBudget (line : Line) (thicknessThreshold : Int) : Nat :=
+  majorLength line * (thicknessThreshold.toNat + 2) + 1
 
 /-- The points of `Line::new(start, end).into_styled(PrimitiveStyle::with_stroke(c, width)).pixels()`
 in emission order (`StyledPixelsIterator`): nothing for width 0 (`effective_stroke_color` is
@@ -254,7 +275,8 @@ in emission order (`StyledPixelsIterator`): nothing for width 0 (`effective_stro
 def thickPoints (line : Line) (width : Nat) : Option (List Pt) :=
   match ThickPointsIt.new line (satAsI32 width) with
   | none => none
-  | some it => if width = 0 then some [] else it.toListFuel (pixelBudget line width)
+  | some it =>
+    if width = 0 then some [] else it.drainFuel (pixelBudget line it.iter.thicknessThreshold)
 
 end Thick
 end EG
